@@ -175,11 +175,11 @@ def task_parse(form, fmt):
         try:
             r = I.call(vals.ns["str_to_num"], [T, fmt], {})
         except IRaise as e:
-            run.fail("C10|%s/is-parsed" % label, "str_to_num raised %s" % e)
+            run.fail("C10,C06|%s/is-parsed" % label, "str_to_num raised %s" % e)
             return
         rt = I.to_term(r)
         run.oblige("C10|%s/yields-a-number" % label, z3.Or(is_real(rt), is_int(rt)))
-        run.oblige("C10|%s/yields-the-value-the-text-denotes(sign-on-the-whole-magnitude)" % label, as_real(rt) == d)
+        run.oblige("C10,C06|%s/yields-the-value-the-text-denotes(sign-on-the-whole-magnitude)" % label, as_real(rt) == d)
         run.canary("C10|canary[%s]/always-zero" % label, as_real(rt) == 0)
     return task
 
